@@ -262,3 +262,33 @@ def rule_unrecognisable_fragments(run, prog, rid="R-7.8"):
     run.ob(rid, "registry.py::Registry.run::unrecognisable-fragment", bad is None,
            (f"the fragment {bad[0]!r} followed by {bad[1]!r} at file level: {bad[2]} {bad[3]}: text no rule understands is consumed "
             f"silently and the file can still be reported OK!") if bad else "", None, evaluations=n)
+
+
+def rule_vla_sizes(run, prog, rid="R-2.11"):
+    run.rule(rid, "a variable-length array is reported whatever the variable is called: the statement `char buf[<size>];` of a "
+             "function body, recognised by the primaries in priority order and handed to CheckVariableIndent (both interpreted), gets "
+             "VLA_FORBIDDEN for every size spelled with at least one lower-case letter (n, len, nLen, Len, bufLen, n_len2, x9) and for "
+             "none of the constant sizes (BUF_SIZE, N2, 42)", floor=1)
+    variable = ["n", "len", "nLen", "Len", "bufLen", "n_len2", "x9", "aB"]
+    constant = ["BUF_SIZE", "N2", "42", "_"]
+    hist = ("IsFuncDeclaration", "IsBlockStart")
+    bad, n = None, 0
+    try:
+        for size in variable + constant:
+            n += 1
+            toks = lex(prog, f"\tchar\tbuf[{size}];\n", first_line=12)
+            name, o = first_match(prog, toks, scope="Function", history=hist, scope_attrs={"indent": 1, "lvl": 1})
+            if name is None or o is None or not o.matched:
+                continue                          # not recognised as a declaration in this tree: nothing to say here
+            o2 = run_statement(prog, toks, name, ["CheckVariableIndent"], scope="Function", history=hist, scope_attrs={"indent": 1, "lvl": 1})
+            if o2.hang or o2.raised:
+                continue
+            got = "VLA_FORBIDDEN" in o2.codes
+            if got != (size in variable) and bad is None:
+                bad = (size, got, o2.codes)
+    except Unsupported as e:
+        raise Undecided(f"CheckVariableIndent / a primary is outside the evaluable subset: {e}")
+    run.ob(rid, "rules/check_variable_indent.py::CheckVariableIndent::vla-by-name", bad is None,
+           (f"`char buf[{bad[0]}];` in a function body: VLA_FORBIDDEN is {'reported' if bad[1] else 'not reported'} (diagnostics {bad[2]}); "
+            f"a size spelled with a lower-case letter is a variable, an upper-case / numeric one a constant") if bad else "", None,
+           evaluations=n)
